@@ -674,12 +674,7 @@ def run_wd(case: dict, tmp: str) -> dict:
             R.time = _Shim(__import__("time"), sleep=sleep)
             try:
                 loop = R.WatchdogReloaderLoop(**rn.loop_args())
-                orig_trigger = loop.trigger_reload
-
-                def trigger(filename):
-                    events.append(ev("wd_trigger", f=rn.index.get(os.path.abspath(os.fsdecode(filename)), -1)))
-                    return orig_trigger(filename)
-                # the handler closed over the bound method at construction: wrap what it calls
+                # the handler closed over the bound trigger_reload at construction: observe should_reload instead
                 loop.observer = _StubObserver(events)
                 inner = loop.event_handler.on_any_event
 
@@ -725,9 +720,24 @@ def wd_cases(rng: random.Random, n: int) -> list:
     return out
 
 
-# patterns on which fnmatch (documented for exclude_patterns) and watchdog's own matching of ignore patterns agree
-WD_PATTERNS = ["*.cfg", "*/conf/*", "*/mods/m?.py", "*/root/p[12].py", "*.zip", "*/xdir/*", "*/pkg/*", "*.py[co]", "*e1.cfg",
-               "*m2.py", "{B}/root/p1.py", "{B}/conf/e?.cfg", "*.txt", "*/other/*", "*[0-9].py", "*q?.py", "*/libs/z[!1].zip"]
+# patterns on which fnmatch (documented for exclude_patterns) and watchdog's own matching of ignore patterns agree ...
+WD_AGREE = ["*.cfg", "*/conf/*", "*/mods/m?.py", "*/root/p[12].py", "*/xdir/*", "*/pkg/*", "*.py[co]", "*e1.cfg",
+            "*m2.py", "{B}/root/p1.py", "{B}/conf/e?.cfg", "*.txt", "*/other/*", "*[0-9].py", "*q?.py", "*/libs/z[!1].zip"]
+# ... differ (fnmatch: "*" crosses "/", the whole path must match, case matters on POSIX) ...
+WD_DIVERGENT = ["{B}/*", "*/root/*", "*conf*", "*.PY", "conf/*.cfg", "*/x06-*"]
+# ... and patterns that are also watched patterns of the event handler
+WD_CONFLICT = ["*.zip", "*.pyc", "*.PYC"]
+WD_PATTERNS = WD_AGREE + WD_DIVERGENT + WD_CONFLICT
+
+
+def wd_label(case: dict) -> str:
+    """label for violation keys only (never a verdict): which family of exclude patterns the case used"""
+    pats = [p for p in case["pats"]]
+    if any(p.lower() in ("*.py", "*.pyc", "*.zip") for p in pats):
+        return "watched-pattern-excluded"
+    if any(p in WD_DIVERGENT for p in pats):
+        return "fnmatch-semantics"
+    return "plain"
 
 
 # ====================================================================== _get_args_for_reloading
